@@ -1394,10 +1394,18 @@ class Stage:
                 subst_to.append(ret.t0)
             elif is_equal(k, self.t):
                 subst_to.append(ret.t)
+            elif is_equal(k, self.DT):
+                subst_to.append(ret.DT)
+            elif is_equal(k, self.DT_control):
+                subst_to.append(ret.DT_control)
             else:
                 subst_to.append(MX.sym(k.name(), k.sparsity()))
+        def renew(e):
+            # Refer to the new stage's t, T, t0 and placeholders
+            return substitute([MX(e)], subst_from, subst_to)[0] if isinstance(e, MX) else e
         for k_old, k_new in zip(subst_from, subst_to):
-            ret._placeholders[k_new] = self._placeholders[k_old]
+            species, expr, p_args, p_kwargs = self._placeholders[k_old]
+            ret._placeholders[k_new] = (species, renew(expr), p_args, p_kwargs)
 
         ret.states = copy(self.states)
         ret.controls = copy(self.controls)
@@ -1408,9 +1416,11 @@ class Stage:
         ret._offsets = deepcopy(self._offsets)
         ret._param_vals = copy(self._param_vals)
         ret._state_der = copy(self._state_der)
+        for k in list(ret._state_der.keys()): ret._state_der[k] = renew(ret._state_der[k])
         ret._scale_der = copy(self._scale_der)
-        ret._alg = copy(self._alg)
+        ret._alg = [renew(e) for e in self._alg]
         ret._state_next = copy(self._state_next)
+        for k in list(ret._state_next.keys()): ret._state_next[k] = renew(ret._state_next[k])
         constr_types = self._constraints.keys()
         orig = []
         for k in constr_types:
